@@ -69,6 +69,10 @@ func (f *WithInputFromOctets) Call(s *slip.Scope, args slip.List, depth int) (re
 	s2.Let(sym, slip.NewInputStream(bytes.NewReader(data)))
 	for i := range forms {
 		result = slip.EvalArg(s2, forms, i, d2)
+		if _, exit := result.(slip.NonLocalExit); exit {
+			// return-from, return or go: control is leaving the body.
+			return
+		}
 	}
 	return
 }
